@@ -5,7 +5,7 @@ import itertools
 
 PID = "C06"
 FAM = 6
-SHRINK = True
+SHRINK = False
 ALLOWED_AXIOMS = set()
 RPCS = ["v1.Get", "v1.Set", "v1.StreamedUpdate", "v1.Subscribe", "v1.GetServerInfo", "v2.GetValue", "v2.GetValues",
         "v2.Subscribe", "v2.SubscribeById", "v2.Actuate", "v2.BatchActuate", "v2.ListMetadata", "v2.PublishValue",
@@ -160,6 +160,8 @@ def histogram(lines, out):
 
 
 def pretty(lines):
+    if not lines or lines[0][:1] != [0]:
+        lines = [[0, 1]] + list(lines)
     out = ["authorization " + ("enabled" if lines[0][1] else "disabled")]
     for l in lines[1:]:
         out.append("DUMP" if l[0] == 2 else "%s value=%d with %s" % (RPCS[l[1]], l[3], describe(l[4:])))
